@@ -77,6 +77,12 @@ func (f *Fact) Scale(x float64) float64 { f.on("Scale", x); return ScaleFn(x) }
 func (f *Fact) IsBig(x int64) bool      { f.on("IsBig", x); return IsBigFn(x) }
 func (f *Fact) Join(a string, b string) string { f.on("Join", a, b); return JoinFn(a, b) }
 
+// Methods whose result depends on a field: a rule that changes that field announces it with
+// Forget/Changed naming the CALL ("F.Level()"), as Function_en.md documents.
+
+func (f *Fact) Level() int64  { f.on("Level"); return f.I }
+func (f *Fact) Label() string { f.on("Label"); return f.S }
+
 // Documented-protocol mutators: a rule that calls one announces the change with Changed/Forget.
 
 func (f *Fact) SetI(v int64) { f.on("SetI", v); f.I = v }
@@ -234,4 +240,69 @@ func canonValue(b *bytes.Buffer, v reflect.Value) {
 	default:
 		fmt.Fprintf(b, "%s(%v)", v.Type().Kind(), v.Interface())
 	}
+}
+
+
+// CloneState deep-copies a live state (facts, scalars, decoded JSON) by reflection.
+func CloneState(s State) State {
+	out := State{}
+	for k, v := range s {
+		out[k] = deepCopy(reflect.ValueOf(v)).Interface()
+	}
+	return out
+}
+
+func deepCopy(v reflect.Value) reflect.Value {
+	if !v.IsValid() {
+		return v
+	}
+	switch v.Kind() {
+	case reflect.Ptr:
+		if v.IsNil() {
+			return v
+		}
+		n := reflect.New(v.Type().Elem())
+		n.Elem().Set(deepCopy(v.Elem()))
+		return n
+	case reflect.Interface:
+		if v.IsNil() {
+			return v
+		}
+		n := reflect.New(v.Type()).Elem()
+		n.Set(deepCopy(v.Elem()))
+		return n
+	case reflect.Struct:
+		if _, ok := v.Interface().(time.Time); ok {
+			return v
+		}
+		n := reflect.New(v.Type()).Elem()
+		n.Set(v) // copies unexported bookkeeping fields as they are
+		for i := 0; i < v.NumField(); i++ {
+			if v.Type().Field(i).PkgPath != "" {
+				continue
+			}
+			n.Field(i).Set(deepCopy(v.Field(i)))
+		}
+		return n
+	case reflect.Slice:
+		if v.IsNil() {
+			return v
+		}
+		n := reflect.MakeSlice(v.Type(), v.Len(), v.Len())
+		for i := 0; i < v.Len(); i++ {
+			n.Index(i).Set(deepCopy(v.Index(i)))
+		}
+		return n
+	case reflect.Map:
+		if v.IsNil() {
+			return v
+		}
+		n := reflect.MakeMapWithSize(v.Type(), v.Len())
+		it := v.MapRange()
+		for it.Next() {
+			n.SetMapIndex(it.Key(), deepCopy(it.Value()))
+		}
+		return n
+	}
+	return v
 }
